@@ -100,6 +100,11 @@ def cases(shard, nshards, seed, tier):
                    {"kind": "T1", "ops": [{"op": "rigid", "seed": f"{fn}:ens1", "trans": [10.0, 20.0, -30.0]}]}):
             if mine():
                 yield {"family": "ensemble-models-first", "file": fn, "base_ops": [], "twin": tw, "pre_models": list(range(10, 1, -1))}
+    # format twins of tables with alternate conformers whose best-occupied conformer is (mostly) labelled B
+    for fn in [f for f in files if f.endswith(("1ATO.pdb", "1A1T_1_B.cif", "1E7K_1_C.cif", "1ehz-assembly-1.cif", "4WTI_1_T-P.cif"))]:
+        for t in range(2 if tier == "quick" else 6):
+            if mine():
+                yield {"family": "T4-format-alternate-conformers", "file": fn, "base_ops": [], "twin": {"kind": "T4", "altlocs": f"{seed}:{fn}:alt{t}"}}
     # format twins with gap detection on: missing residues (author numbers jump while the mmCIF label index does not)
     for fn in [f for f in files if f.endswith(("1E7K_1_C.cif", "1ehz-assembly-1.cif", "1A1T_1_B.cif", "4qln.cif", "488d.pdb"))]:
         for t in range(2 if tier == "quick" else 8):
@@ -314,7 +319,7 @@ def run_case(case, rec):
     else:
         from vmon import emit
 
-        res = emit.format_twins(base)
+        res = emit.format_twins(base, altloc_seed=tw.get("altlocs"))
         if res is None:
             rec.skip("twin.interactions-equal", "outside-PDB-limits-or-multi-char-chain")
             return
